@@ -85,6 +85,22 @@ fn k8_source(n: usize) -> String {
     s
 }
 
+/// K3/K4 exactly: the trivia run behind a string literal / escaped identifier is pushed with the literal and then once
+/// more for each of its nodes the event loop emits by itself: a run of blanks/tabs at its START (a WhiteSpace::Space
+/// node; a run that starts with a line break is ONE Newline node, which is not emitted again) and every comment in it.
+fn c06_trivia_emitted_twice(b: &[u8], i: usize) -> bool {
+    let n = b.len();
+    if i >= n { return false; }
+    if b[i] == b' ' || b[i] == b'\t' { return true; }
+    let mut k = i;
+    while k < n {
+        if b[k] == b' ' || b[k] == b'\t' || b[k] == b'\r' || b[k] == b'\n' { k += 1; }
+        else if b[k] == b'/' && k + 1 < n && (b[k + 1] == b'/' || b[k + 1] == b'*') { return true; }
+        else { return false; }
+    }
+    false
+}
+
 /// Reference scan of a directive-free text (no backtick): may the preprocessor reject it?
 /// Only for an unterminated string, an unterminated block comment or a lone backslash (C06).
 /// Also tells whether a string / escaped identifier is directly followed by white space or a comment
@@ -114,13 +130,13 @@ fn c06_reference(b: &[u8]) -> (bool, bool) {
             }
             if !closed { return (true, k34); }
             i = j + 1;
-            if i < n && (b[i] == b' ' || b[i] == b'\n' || b[i] == b'\r' || b[i] == b'\t' || b[i] == b'/') { k34 = true; }
+            if c06_trivia_emitted_twice(b, i) { k34 = true; }
         } else if b[i] == b'\\' {
             let mut j = i + 1;
             while j < n && !(b[j] == b' ' || b[j] == b'\t' || b[j] == b'\r' || b[j] == b'\n') { j += 1; }
             if j == i + 1 { return (true, k34); }
             i = j;
-            if i < n { k34 = true; }
+            if c06_trivia_emitted_twice(b, i) { k34 = true; }
         } else {
             i += 1;
         }
